@@ -504,6 +504,23 @@ fn tttg_error(err: &str, bad: &str) -> String {
 }
 
 
+/// Verification hook (only with `--cfg suiron_verif`): the token list of `tokenize()`.
+#[cfg(suiron_verif)]
+pub fn verif_tokenize(to_parse: &str) -> Result<Vec<Token>, String> {
+    tokenize(to_parse)
+}
+
+/// Verification hook (only with `--cfg suiron_verif`): the token tree which
+/// `generate_goal()` hands to `token_tree_to_goal()`.
+#[cfg(suiron_verif)]
+pub fn verif_token_tree(to_parse: &str) -> Result<Token, String> {
+    let tokens = tokenize(to_parse)?;
+    let mut base_token = group_tokens(&tokens, 0);
+    base_token = group_and_tokens(base_token);
+    base_token = group_or_tokens(base_token);
+    Ok(base_token)
+}
+
 #[cfg(test)]
 mod test {
 
